@@ -92,6 +92,51 @@ fn run_find_exhaustive(desc: &Value) -> CaseOut {
     if let Err(p) = r {
         out.violate_panic("C03", "find", "exhaustive", &p);
     }
+    // huge windows (virtual sequence: the entry at absolute position i carries the key i): index arithmetic near 2^31 and 2^32
+    if first == 0 {
+        struct Ident {
+            probe: u64,
+        }
+        impl CompareTrait for Ident {
+            fn ordered(&self) -> bool {
+                true
+            }
+            fn compare_entry(&self, idx: jbk::EntryIdx) -> jbk::Result<Ordering> {
+                Ok((idx.into_u32() as u64).cmp(&self.probe))
+            }
+        }
+        let r = util::catch(|| {
+            for (off, cnt) in [(0u32, (1u32 << 31) - 1), (0, 1 << 31), (0, (1 << 31) + 1), (0, u32::MAX), (1, u32::MAX - 1), (1 << 31, (1 << 31) - 1), (5, 3_000_000_000)] {
+                let range = jbk::EntryRange::new_from_size(jbk::EntryIdx::from(off), jbk::EntryCount::from(cnt));
+                let end = off as u64 + cnt as u64;
+                for probe in [0u64, 1, off as u64, off as u64 + 1, end / 2, (1 << 31) - 1, 1 << 31, (1 << 31) + 1, end - 1, end, 3_999_999_999] {
+                    let expected = if probe >= off as u64 && probe < end { Some((probe - off as u64) as u32) } else { None };
+                    calls += 1;
+                    match range.find(&Ident { probe }) {
+                        Ok(g) => {
+                            let g = g.map(|i| i.into_u32());
+                            if g != expected {
+                                out.violate(
+                                    json!({"kind": "find", "mode": "binary", "huge_window": true, "profile": profile()}),
+                                    format!("C03: binary find over the window [{off}, +{cnt}) probe {probe} answers {g:?}, expected {expected:?}"),
+                                    json!({}),
+                                );
+                                return;
+                            }
+                        }
+                        Err(e) => {
+                            out.violate(json!({"kind": "find-error", "profile": profile()}), format!("C03: find returned an error: {e}"), json!({}));
+                            return;
+                        }
+                    }
+                }
+            }
+            out.obs.inc("find_huge_windows_checked");
+        });
+        if let Err(p) = r {
+            out.violate_panic("C03", "find", "huge-window", &p);
+        }
+    }
     out.obs.add("find_exhaustive.sequences", sequences);
     out.obs.add("find_exhaustive.calls", calls);
     out.nontrivial = true;
